@@ -12,11 +12,11 @@ def run(rep):
     syntactic.semidet_yield_constant(rep)
     templates.discipline_obligations(rep)
     q = rep.tier == 'quick'
-    fw.standin(rep, 'difftest.py', ['run', 'F5', rep.seed, 1200 if q else 20000],
+    fw.standin(rep, 'difftest.py', ['run', 'F5', rep.seed, 5000 if q else 40000],
                'fact predicates re-implemented as registered Python generators vs compiled (answers equal, both vs reference)',
                'F1/F2 programs x random subsets of fact predicates swapped')
     if os.path.exists(os.path.join(fw.VERIF, 'standin', 's_c20.py')):
-        fw.standin(rep, 's_c20.py', ['run', rep.seed, 300 if q else 5000],
+        fw.standin(rep, 's_c20.py', ['run', rep.seed, 1200 if q else 8000],
                    'registration styles, yield values, contexts (negation, if-then-else, cut, meta-calls, dynamic facts), argument objects, exception identity',
                    'F1-F3 programs x subsets x styles')
     rep.notes.append('modularity: every consumer of a predicate iterator is verified against the predicate contract only (an iterator '
